@@ -253,14 +253,18 @@ class workq:
         channel = job.channel
 
         alternatives = []
-        for watching, ev in self._waiters:
+        for waiter in self._waiters:
+            watching = waiter[0]
             if channel in watching or not watching:
-                alternatives.append(ev)
+                alternatives.append(waiter)
 
         heapq.heappush(self.timeoutq, (job.timeout, job))
 
         if alternatives:
-            random.choice(alternatives).set(job)
+            # a blocked puller receives exactly one job: unregister it at hand-off
+            waiter = random.choice(alternatives)
+            self._waiters.remove(waiter)
+            waiter[1].set(job)
             return job.jobid
 
         try:
@@ -308,11 +312,17 @@ class workq:
             heapq.heappop(self.channel2q[j.channel])
         else:
             ev = event.AsyncResult()
-            self._waiters.append((channels, ev))
+            waiter = (channels, ev)
+            self._waiters.append(waiter)
             try:
                 j = ev.get()
-            finally:
-                self._waiters.remove((channels, ev))
+            except BaseException:
+                # killed while blocked: a job handed over in the meantime goes back
+                if waiter in self._waiters:
+                    self._waiters.remove(waiter)
+                if ev.successful():
+                    self.pushjob(ev.value)
+                raise
 
         return j
 
